@@ -16,7 +16,7 @@ CHECKS = {
  "C02": ("E1", "exploration",
    "runtime monitoring: wire-level differential observer (raw-TCP client vs raw-TCP recording backend) over grammar-generated requests + race detector + crash monitor",
    "Grammar-generated well-formed requests are sent byte-for-byte by a raw client through the real server and agent to a raw recording backend; the request fidelity oracle compares method, target, Host, every end-to-end field's ordered value list, absence of planted hop-by-hop tokens, and body length/SHA. Holds on the generated inputs only.",
-   "Trusted: harness codec and generator; the classes excluded as not well-formed / protocol-special are listed in DESIGN.md §3 C02 and §4.",
+   "Trusted: harness codec and generator; the classes excluded as not well-formed / protocol-special are listed in DESIGN.md §3 C02 and §4. A second flavour sends the same generator through an agent started with --force-http2 --debug to an h2c recording backend (Cookie excluded there: HTTP/2 may re-split cookie pairs).",
    "DESIGN.md §3 C02"),
  "C03": ("E1", "exploration",
    "runtime monitoring: wire-level differential observer over scripted backend responses (all statuses 200-599, framings, trailers, 1xx, delays) + race detector",
@@ -40,8 +40,8 @@ CHECKS = {
    "DESIGN.md §3 C06"),
  "C07": ("E1", "fault_enumeration",
    "runtime monitoring: enumerated fault catalogue injected into a live agent while 8 lanes of healthy probes run; process-liveness, crash-marker and probe-correctness monitors + race detector",
-   "Faults at every injection point (pending list, fetch, backend connect/headers/body, upload, shim endpoints; 37 kinds) are injected one after another into two agent configurations while healthy token requests run continuously; any probe that fails before/during/after a fault, any crash marker or exit of the agent, and a missing/non-502 answer for an unreachable backend are violations.",
-   "A fault may fail its own request in any way. Probe bound 20 s. force-http2 configuration not covered.",
+   "Faults at every injection point (pending list, fetch, backend connect/headers/body, upload, shim endpoints; 48 kinds) are injected one after another into three agent configurations while healthy token requests run continuously; any probe that fails before/during/after a fault, any crash marker or exit of the agent, and a missing/non-502 answer for an unreachable backend are violations.",
+   "A fault may fail its own request in any way. Probe bound 20 s. Three agent configurations: plain, --force-http2 (h2c backend with handler-level faults), shim+sessions+banner (with healthy websocket-shim session lanes).",
    "DESIGN.md §3 C07"),
  "C08": ("E2+E1", "exploration",
    "runtime monitoring: reference-model monitor over direct calls (integer specification of the delay range) + load-safe inequalities over fake-proxy arrival timestamps of the agent binary",
@@ -67,7 +67,7 @@ CHECKS = {
  "C10": ("E2", "exploration",
    "runtime monitoring: reference-model monitor (one net/http/cookiejar per issued session) over sequential histories; concurrent phase with tag-safety oracle, porcupine linearizability check per (session, cookie name), quiescent model comparison, hook-forced first-use overlaps + race detector",
    "sessions.SessionHandler is driven in a race-built worker with http.ReadRequest-built requests against a scripted backend; the model jar decides exactly which cookies the backend must see, client-visible Set-Cookie must be only the agent's session cookie with the stated attributes; concurrent rounds record call/return windows from one clock and are checked with porcupine v1.3.0 (60 s timeout => inconclusive); eviction histories assert only the limit-1 most recently used sessions.",
-   "Jar semantics are net/http/cookiejar's for https://<Host><path>; empty-valued session cookies are not generated; time margins >= 60 s.",
+   "Jar semantics are net/http/cookiejar's for https://<Host><path>; empty-valued session cookies are not generated; time margins >= 60 s. An end-to-end sample drives the agent binary with sessions and the websocket shim enabled (plain requests and shim opens under path-scoped cookies).",
    "DESIGN.md §3 C10"),
  "C11": ("E2", "exploration",
    "runtime monitoring: exactly-once / in-order checker over recorded message sequences at both ends of the shim (unique payloads), batching varied; JSON-equality oracle for header injection",
